@@ -29,7 +29,7 @@ ACTIONS = {
     "X = X": ("make_equals", "{0}={1}"),
     "X ~ X": ("make_matchfn", "{0}~{1}"),
 }
-KIND_TEXT = {"element": "x", "wild": "*", "call": "g(y)", "list": "(p, q)", "vsymbol": "v", "vcall": "h(1)", "vkeyword": "(k=1)", "vlist": "(1, 2)"}
+KIND_TEXT = {"element": "x", "wild": "*", "call": "g(y)", "list": "(p, q)", "nested-list": "((p, q), r)", "vsymbol": "v", "vcall": "h(1)", "vkeyword": "(k=1)", "vlist": "(1, 2)"}
 VALUE_POSITIONS = {("_ : X", 1), ("X : X", 1), ("X = X", 1), ("X ~ X", 1)}  # operands evaluated with value_evaluate
 
 
@@ -46,6 +46,10 @@ def _operand(it, kind):
                                       captures=(it.call(Element, [], dict(name="y", capture="y")),)))
     if kind == "list":
         return [it.call(Element, [], dict(name="p", capture="p")), it.call(Element, [], dict(name="q", capture="q"))]
+    if kind == "nested-list":
+        # `(p, q), r`: the sequence operator flattens its RIGHT operand only, so a parenthesised sequence on the left stays nested
+        return [[it.call(Element, [], dict(name="p", capture="p")), it.call(Element, [], dict(name="q", capture="q"))],
+                it.call(Element, [], dict(name="r", capture="r"))]
     VSymbol = it.get_global(S, "VSymbol")
     if kind == "vsymbol":
         return it.call(VSymbol, ["v"], {})
@@ -83,7 +87,7 @@ except BaseException as e:
 
 @unit("evaluator-actions", ["C18"], [S + ":" + a for a in sorted({v[0] for v in ACTIONS.values()})] + [S + ":_guarantee_call", S + ":Evaluator.__call__"],
       replay=_replay_parse, replay_decides=True,
-      assumed=["induction hypothesis: evaluate(sub-tree) returns an Element, a Call or a list of those (or raises SyntaxError); value_evaluate returns a VSymbol / VCall / VKeyword / list"])
+      assumed=["induction hypothesis: evaluate(sub-tree) returns an Element, a Call or a list of those, possibly nested one level (or raises SyntaxError); value_evaluate returns a VSymbol / VCall / VKeyword / list"])
 def u_actions(c):
     """Every evaluation action, for EVERY combination of kinds of its (already evaluated) operands, in both contexts:
     returns an Element, a Call or a list, or raises SyntaxError -- never an assertion / attribute / type / index error.
@@ -105,7 +109,7 @@ def u_actions(c):
             kinds.append(k)
             operands.append(SymObj("tree:" + k, Val.ref(z3.IntVal(c.new_id())), attrs={"_kind": k}))
         else:
-            k = ["element", "wild", "call", "list"][c.choose(4, "kind")]
+            k = ["element", "wild", "call", "list", "nested-list"][c.choose(5, "kind")]
             kinds.append(k)
             operands.append(SymObj("tree:" + k, Val.ref(z3.IntVal(c.new_id())), attrs={"_kind": k}))
     context = ["root", "incall"][c.choose(2, "context")]
